@@ -1409,7 +1409,9 @@ def _trace_sort_key(w):
             return int(s)
         except ValueError:
             return s
-    return [tryint(c) for c in re.split('([0-9]+)', w)]
+    # The raw name breaks ties between names that differ only in leading zeros
+    # (e.g. "x1" and "x01"), making the order total.
+    return ([tryint(c) for c in re.split('([0-9]+)', w)], w)
 
 
 class TraceStorage(Mapping):
